@@ -420,12 +420,14 @@ def floor_ceiling_converted(case):
 def result_magnitude_exception(case):
     """strict inference of the result raises a Python arithmetic exception (C04 magnitude-arithmetic-exception) -- only
     where the MODEL of the unchanged traverse raises on that very result too (infer answers "other exception"), or
-    declines because a complex magnitude arises (TypeError) or floor / ceiling is taken of a float it does not track"""
+    declines for a structural reason visible in the tree (uc.model_may_decline: floor / ceiling, pi / E, an exponent
+    that is a function or not an integer -- magnitudes it does not track)"""
     d = case.get('detail', {})
     if _kind(case) != 'strict':
         return False
     return (d.get('infer_model') == 2 and d.get('err') in ('ZeroDivisionError', 'Other:OverflowError', 'TypeError')) or \
-        (d.get('infer_model') == 3 and (d.get('err') == 'TypeError' or uc.has_fn(uc.tree_unjson(case.get('out') or case['tree']), (3, 4))))
+        (d.get('infer_model') == 3 and d.get('err') in ('ZeroDivisionError', 'Other:OverflowError', 'TypeError') and
+         uc.model_may_decline(uc.tree_unjson(case.get('out') or case['tree'])))
 
 
 def minmax_rebuild_not_comparable(case):
